@@ -32,7 +32,10 @@ def signature(e, why):
         proc = why[5:]
         fn = e.get("func") or slug(e.get("msg"), 5) or "unknown"
         if proc == "died":
-            return "C11:died:%s:%s" % (e["phase"], fn)
+            # the stack knows better than the journal which activity died (a shard load can also be
+            # started by a rescan while the process is already serving)
+            phase = "load" if "search.loadShard" in e.get("stderr", "") else e["phase"]
+            return "C11:died:%s:%s" % (phase, fn)
         return "C11:%s:%s%s" % (proc, e["phase"], (":" + e["func"]) if e.get("func") else "")
     if why.startswith("search:") or why.startswith("list:"):
         op, outcome = why.split(":", 1)
@@ -95,7 +98,7 @@ def run(ctx):
         where = collections.Counter("%s/%s:%s:%s" % (x["section"], x["part"], x["pos"], x["mut"]) for x, _ in items if x["family"] == "class")
         ctx.violation(sig, {
             "occurrences": len(items), "why": r["why"],
-            "witness": {k: e[k] for k in ("family", "base", "target", "section", "part", "pos", "mut", "off", "trunc", "set", "proc", "phasefull", "load", "msg", "func")},
+            "witness": {k: e[k] for k in ("family", "base", "target", "section", "part", "pos", "mut", "off", "where", "trunc", "set", "proc", "phasefull", "load", "msg", "func")},
             "ops": [{k: o[k] for k in ("op", "q", "outcome", "msg")} for o in e["ops"] if o["outcome"] != "ok"][:4],
             "stderr": e.get("stderr", "")[-900:],
             "fault_classes": dict(where.most_common(60)),
